@@ -431,8 +431,14 @@ fn cmd_w1(args: &Args) -> i32 {
         }
     }
     if !dead.is_empty() && exit == 0 && out.found.is_empty() {
-        println!("HARNESS-ERROR dead probes: {:?}", dead);
-        exit = 2;
+        if tier == "thorough" {
+            println!("HARNESS-ERROR dead probes: {:?}", dead);
+            exit = 2;
+        } else {
+            // a quick batch is small enough for a rare probe to stay at zero for some seed; it is reported
+            // in the evidence ("dead_probes") but only a thorough run fails on it
+            println!("NOTE probes at zero in this quick batch: {:?}", dead);
+        }
     }
 
     // evidence
